@@ -165,6 +165,22 @@ def _setup():
     return codegen
 
 
+class _CliOutcome:
+    """What the generate command lets its caller observe: it returns nothing; an error is reported by printing it."""
+
+    def __init__(self, printed):
+        self.printed = printed
+
+    def is_err(self):
+        return bool(self.printed)
+
+    def is_ok(self):
+        return not self.printed
+
+    def __repr__(self):
+        return f"<generate command printed {len(self.printed)} message(s)>"
+
+
 CATEGORY_SETS = {
     "one_per_category": ["struct", "field", "enum", "impl", "signal_block", "type", "device"],
     "several_per_category": ["impl", "impl", "struct", "type", "type", "field"],
@@ -173,8 +189,18 @@ CATEGORY_SETS = {
 }
 
 
+def _schema_file():
+    """SCHEMA as a real file (the CLI entry parses its argument with the real get_fcp)."""
+    d = tempfile.mkdtemp(prefix="verif_c10_src_")
+    p = os.path.join(d, "main.fcp")
+    with open(p, "w") as f:
+        f.write(SCHEMA)
+    return d, p
+
+
 def c10_case(args):
-    setname, nrecords, history, tier = args
+    setname, nrecords, history, tier = args[:4]
+    entry = args[4] if len(args) > 4 else "manager"
     codegen = _setup()
     import fcp_vstub
     from fcp.verifier import make_general_verifier
@@ -184,8 +210,17 @@ def c10_case(args):
     fcp = parse(SCHEMA)
     cats = CATEGORY_SETS[setname]
     feats = {"desc": f"{setname}/records{nrecords}" + ({0: "", 1: "/after-an-accepted-generation",
-                                                        2: "/after-a-generation-by-another-manager"}[int(history)]),
+                                                        2: "/after-a-generation-by-another-manager"}[int(history)])
+             + ("/through-the-generate-command" if entry == "cli" else ""),
              "checks": cats}
+    srcdir = schema_path = None
+    printed = []
+    if entry == "cli":
+        # the command body of `fcp generate` (fcp.__main__.generate_cmd.callback): real get_fcp on a real file, then
+        # the same manager; its only observable besides the file system is what it prints
+        srcdir, schema_path = _schema_file()
+        from fcp import __main__ as cli
+        cli.print = lambda *a, **k: printed.append(a)
     RecPath.pre = {}
     _LEN.clear()
     space = AtomSpace()
@@ -226,7 +261,22 @@ def c10_case(args):
                 raise EngineLimit(f"history prefix was not accepted: {first!r}")
             fs.ops.clear()
         fcp_vstub.CONFIG.update({"checks": cats, "records": recs, "verdict": verdict, "calls": []})
-        out = gm.generate("vstub", None, None, fcp, "outdir")
+        if entry == "cli":
+            del printed[:]
+            outdir = os.path.join(srcdir, "out")
+            shutil.rmtree(outdir, ignore_errors=True)
+            os.makedirs(outdir)
+            with open(os.path.join(outdir, "keep.txt"), "w") as f:
+                f.write("pre-existing")
+            cli.generate_cmd.callback("vstub", schema_path, outdir, None, None)
+            out = _CliOutcome(list(printed))
+            # anything the command body did to the files of the real output directory on its own (not through
+            # fcp.codegen, whose file-system names are the recording model) shows here
+            real = _snapshot(srcdir)
+            if sorted(real) != ["main.fcp", "out/keep.txt"] or real["out/keep.txt"] != b"pre-existing":
+                fs.ops.append(("real-file-system", tuple(sorted(real))))
+        else:
+            out = gm.generate("vstub", None, None, fcp, "outdir")
         return out, list(fs.ops), list(fcp_vstub.CONFIG["calls"])
 
     def mk(m):
@@ -243,7 +293,7 @@ def c10_case(args):
                 same = ln is not None and m.eval(pr["size"].e == ln[0].e, model_completion=True)
                 pre.append({"exists": ex, "same_size": bool(z3.is_true(same)) if ln is not None else False})
         return {"kind": "gating", "checks": cats, "verdicts": vs, "record_types": types, "history": history,
-                "pre_existing": pre}
+                "pre_existing": pre, "entry": entry}
 
     try:
         with cov:
@@ -309,9 +359,12 @@ def c10_case(args):
                           "reject_paths": sum(1 for k, o, _ in paths if k == "ret" and "generate" not in o[2])}
     except EngineLimit as e:
         res["inconclusive"].append(f"{feats['desc']}: engine limit: {e}")
+    finally:
+        if srcdir:
+            shutil.rmtree(srcdir, ignore_errors=True)
     finish_engine(res, eng)
     res["functions"] = sorted(cov.seen)
-    res["sample"] = {"checks": cats, "records": nrecords, "paths": res["paths"], "queries": res["queries"],
+    res["sample"] = {"checks": cats, "entry": entry, "records": nrecords, "paths": res["paths"], "queries": res["queries"],
                      "symbolic_verdicts": len(verdicts)}
     return res
 
@@ -341,6 +394,27 @@ def _snapshot(d):
 
 
 WARMUP = 'version: "3"\nstruct Warm { a @0: u8, }\nimpl can for Warm {\n    id: 1,\n    device: "ecu",\n}\n'
+
+
+def real_cli_run(gen, text):
+    """`python -m fcp generate <gen> <file> <dir>` as a user runs it: fresh process, real click, real everything."""
+    import subprocess
+    d = tempfile.mkdtemp(prefix="verif_c10_")
+    src = tempfile.mkdtemp(prefix="verif_c10_src_")
+    try:
+        open(os.path.join(src, "main.fcp"), "w").write(text)
+        open(os.path.join(d, "keep.txt"), "w").write("pre-existing")
+        open(os.path.join(d, "old_can.h"), "w").write("stale header")
+        before = _snapshot(d)
+        env = dict(os.environ, PYTHONPATH=os.pathsep.join(p for p in sys.path if "/plugins/" in p or p.endswith("/src")))
+        p = subprocess.run([sys.executable, "-m", "fcp", "generate", gen, os.path.join(src, "main.fcp"), d],
+                           capture_output=True, text=True, timeout=300, env=env)
+        after = _snapshot(d)
+        said = (p.stdout + p.stderr).strip()
+        return p, before, after, said
+    finally:
+        shutil.rmtree(d, ignore_errors=True)
+        shutil.rmtree(src, ignore_errors=True)
 
 
 def real_plugin_run(gen, text, expect_ok, warmup=False):
@@ -375,18 +449,28 @@ def real_plugin_run(gen, text, expect_ok, warmup=False):
 
 
 def c10_real_case(args):
-    gen, text, expect_ok, tier = args
+    gen, text, expect_ok, tier = args[:4]
+    entry = args[4] if len(args) > 4 else "manager"
     add_repo_paths()
     res = new_result()
-    ob = f"real/{gen}/{'accept' if expect_ok else 'reject'}/{abs(hash(text)) % 10000}"
+    import zlib
+    ob = f"real/{entry}/{gen}/{'accept' if expect_ok else 'reject'}/{zlib.crc32(text.encode()) % 10000}"
     res["obligations"].append(ob)
-    p, before, after = real_plugin_run(gen, text, expect_ok)
-    last = (p.stdout.strip().splitlines() or ["{}"])[-1]
-    try:
-        import json
-        st = json.loads(last)
-    except Exception:
-        st = {"ok": False, "err": False, "crash": p.stderr[-200:]}
+    if entry == "cli":
+        p, before, after, said = real_cli_run(gen, text)
+        # the command reports an error by printing it (exit status is 0 either way at this commit)
+        st = {"ok": after != before or (gen == "nop" and "rror" not in said), "err": bool(said) and after == before,
+              "said": said[-160:]}
+        if not expect_ok and after == before and not said:
+            st = {"ok": True, "err": False, "said": ""}       # silent acceptance of a rejected schema
+    else:
+        p, before, after = real_plugin_run(gen, text, expect_ok)
+        last = (p.stdout.strip().splitlines() or ["{}"])[-1]
+        try:
+            import json
+            st = json.loads(last)
+        except Exception:
+            st = {"ok": False, "err": False, "crash": p.stderr[-200:]}
     bad = None
     if not expect_ok:
         if before != after:
@@ -401,7 +485,7 @@ def c10_real_case(args):
     if bad:
         from ..common import write_replay, run_replay
         path = write_replay("C10", {"kind": "gating_real", "generator": gen, "schema_text": text,
-                                    "expect_ok": expect_ok, "property": "C10"})
+                                    "expect_ok": expect_ok, "property": "C10", "entry": entry})
         ok, t = run_replay(path)
         if ok:
             res["violations"].append({"replay": path, "ob": ob, "what": f"{gen}: {bad}"})
@@ -428,7 +512,11 @@ def run_c10(tier: str) -> int:
     for s in ("one_per_category", "late_only"):
         cases.append(("sym", s, 1, 1, tier))
         cases.append(("sym", s, 1, 2, tier))
+    for s in (("one_per_category", "several_per_category", "none") if tier == "quick" else tuple(CATEGORY_SETS)):
+        for n in ((2,) if tier == "quick" else (0, 1, 2, 3)):
+            cases.append(("sym", s, n, 0, tier, "cli"))
     cases += [("real", g, t, e, tier) for g, t, e in REAL_CASES]
+    cases += [("real", g, t, e, tier, "cli") for g, t, e in REAL_CASES]
     rep.bounds = {
         "check_sets": CATEGORY_SETS,
         "verdicts": "one symbolic boolean per (check, node) call: every failing position in every category, any number "
@@ -437,7 +525,9 @@ def run_c10(tier: str) -> int:
         "schema": "one schema with every verifier category populated",
         "real_plugins": "dbc, can_c, nop, cpp run concretely through GeneratorManager.generate with accepted/rejected "
                         "schemas into a temp dir with pre-existing files (stub conformance, not the deciding step)",
-        "outside": "the click CLI wrapper in __main__.py; side effects inside a real plug-in's own generate(); "
+        "entries": "GeneratorManager.generate and the body of the `fcp generate` command (fcp.__main__.generate_cmd.callback: "
+                   "real get_fcp on a real schema file, error reported by printing)",
+        "outside": "click's argument parsing in front of the command body; side effects inside a real plug-in's own generate(); "
                    "checks registered without a category ('uncategorized')",
     }
     rep.stubs = ["fcp.codegen.Path/pathlib/os/print/str -> recording file-system model", "plug-in fcp_vstub"]
@@ -450,5 +540,5 @@ def run_c10(tier: str) -> int:
             break
     if rep.vacuity.get("accept_paths", 0) == 0 or rep.vacuity.get("reject_paths", 0) == 0:
         rep.inconclusive.append(f"vacuity: need accepting and rejecting paths, got {rep.vacuity}")
-    rep.extra["traces_validated_against_impl"] = len(REAL_CASES)
+    rep.extra["traces_validated_against_impl"] = 2 * len(REAL_CASES)
     return rep.finish()
